@@ -188,8 +188,30 @@ def _viacmd(case):
             for v in viols[nv:]:
                 v["key"] += ":unsigned-input"
             outcomes["%s:viacmd:%s" % (op, oc)] = outcomes.get("%s:viacmd:%s" % (op, oc), 0) + 1
+    # NARROW unsigned types (byte / 16-bit rasters handed over by a plug-in command or through the API) holding values in the upper half of their
+    # range, for the commands whose results fit: differences, extremes, means and quotients
+    if op in NARROW_OPS and n <= 2:
+        lat8 = [F(0), F(5), F(200), F(255), M]
+        lat16 = [F(0), F(5), F(40000), F(65535), M]
+        for dts in ([("uint8",), ("uint16",)] if n == 1 else [("uint8", "uint8"), ("uint16", "uint16"), ("uint8", "int"), ("int", "uint8"), ("uint16", "float"), ("uint8", "uint16")]):
+            lats = [lat8 if d == "uint8" else lat16 if d == "uint16" else lat_f if d == "float" else lat_s for d in dts]
+            tuples = list(itertools.product(*lats))
+            cols = [[t[i] for t in tuples] for i in range(n)]
+            for params in _presets(op, n, "quick")[:6]:
+                arrays = [D.mk_array(c, dtype=d) for c, d in zip(cols, dts)]
+                res = D.run_via_command(op, arrays, params)
+                evals += len(tuples)
+                tag = {"op": op, "n": n, "dtypes": list(dts), "params": params, "through": "Command.run"}
+                nv = len(viols)
+                oc = D.judge("C07", op, params, cols, res, (len(tuples),), viols, tag, counters, V)
+                for v in viols[nv:]:
+                    v["key"] += ":narrow-unsigned-input"
+                outcomes["%s:viacmd-narrow:%s" % (op, oc)] = outcomes.get("%s:viacmd-narrow:%s" % (op, oc), 0) + 1
     return {"evals": max(evals, 1), "nontrivial": evals, "judged": counters["judged"], "unspecified": counters["unspecified"], "viols": viols[:30],
             "outcomes": outcomes, "sample": sample}
+
+
+NARROW_OPS = ("AMinusB", "Minimum", "Maximum", "ADividedByB", "Copy")  # (sums of narrow integers wrap in numpy's fixed-width arithmetic: DESIGN section 6, observed)
 
 
 def _errors(case):
